@@ -67,7 +67,7 @@ PROPERTIES = {
         clause="indicator polynomials of And/Or/Not/True/False equal their boolean meaning on all rows; composite conditions recurse into every child; the three "
                "get_moment bodies share the guarded-assignment shape. NOT decided: Atom's Lagrange indicator, power reduction, closure, coefficients."),
     "C05": dict(
-        specs=[S("ENUM"), S("TYPER"), S("SUPPORT"), S("IMPLIED"), S("MARKLAST"), S("GUARD")],
+        specs=[S("ENUM"), S("TYPER"), S("TYPERFIX"), S("SUPPORT"), S("SUPPORTKIND"), S("IMPLIED"), S("MARKLAST"), S("GUARD")],
         clause="discrete supports enumerate the values the moment/sampler sides use; intervals are refused; only non-failed numeric sets become types; the start state "
                "covers the whole initial block; defaults are included unless the condition is implied by the guard; implied-by-guard answers are sound. "
                "NOT decided: that the fixed point covers all reachable values."),
@@ -76,10 +76,10 @@ PROPERTIES = {
         clause="no truncation of a rational kernel on the way to exponent vectors; exponentials are abstracted only behind raising checks; the eliminated symbols are "
                "exactly the lex prefix that is filtered. NOT decided: that reported polynomials vanish on the sequences."),
     "C07": dict(
-        specs=[S("GROEBNER"), S("INVINPUTS", r"invariant_ideal")],
+        specs=[S("GROEBNER"), S("INVINPUTS", r"invariant_ideal"), S("RATLATTICE"), S("KAUERS")],
         clause="both groebner() calls compute elimination ideals (generator prefix == filtered symbols, lex order). NOT decided: completeness of the exponent lattice."),
     "C08": dict(
-        specs=[S("A1-dist"), S("A2", r"program/distribution/"), S("SAMPLERS"), S("ENUM"), S("FLOAT", r"float_to_rational|distribution"), S("CFMGF"), S("DISTREWRITE")],
+        specs=[S("A1-dist"), S("A2", r"program/distribution/"), S("SAMPLERS"), S("ENUM"), S("FLOAT", r"float_to_rational|distribution"), S("CFMGF"), S("DISTREWRITE"), S("SUPPORTKIND")],
         clause="every parameter field is consulted by subs/free symbols/sampler/printer/moment/cf/mgf; scipy sampler arguments denote the moment side's law; discrete "
                "enumerations agree; float parameters become exact rationals; cf(t) == mgf(i t) as rational functions. NOT decided: any moment formula."),
     "C09": dict(
